@@ -547,7 +547,12 @@ func (r *rewriter) injectPointcuts(f *ast.File) {
 			out = append(out, &ast.ExprStmt{X: r.call("Pointcut", &ast.BasicLit{Kind: token.STRING, Value: strconv.Quote(fmt.Sprintf("%s#%d", key, i))})})
 			out = append(out, st)
 		}
-		out = append(out, &ast.ExprStmt{X: r.call("Pointcut", &ast.BasicLit{Kind: token.STRING, Value: strconv.Quote(fmt.Sprintf("%s#end", key))})})
+		// an end pointcut only where falling off the end is possible (a function with results
+		// ends in a terminating statement, and a statement after it would break that)
+		_, endsInReturn := fd.Body.List[len(fd.Body.List)-1].(*ast.ReturnStmt)
+		if (fd.Type.Results == nil || len(fd.Type.Results.List) == 0) && !endsInReturn {
+			out = append(out, &ast.ExprStmt{X: r.call("Pointcut", &ast.BasicLit{Kind: token.STRING, Value: strconv.Quote(fmt.Sprintf("%s#end", key))})})
+		}
 		// a trailing Point after a terminating statement would be unreachable but legal
 		fd.Body.List = out
 	}
